@@ -486,6 +486,7 @@ package server
 //@ func (*LockDB).Lock
 //@   at call ProcessLockResultCommand assert C04.lock.wake-flag: implies(arg2 == protocol.RESULT_SUCCED && calls(doLock) == 1 && calls(checkLessLockVersion) == 0 && calls(UpdateLockedLock) == 0 && calls(PushLockAof) == 0, requireWakeup == lockManager.waited)
 //@   at call PriorityMutex.Unlock assert C17.ref.requeued: implies(calls(RemoveLongExpried) == 1 && calls(AddExpried) + calls(AddMillisecondExpried) == 1 && calls(UpdateLockedLock) == 1, currentLock.refCount == atsection(currentLock.refCount) || currentLock.refCount == u8(atsection(currentLock.refCount) + 1) || (command.TimeoutFlag&0x1000 != 0 && currentLock.refCount == u8(atsection(currentLock.refCount) + 2)))
+//@   at call UpdateLockedLock assert C11.lock.pending-untouched,C03.lock.pending-untouched: arg1.ackCount == 0xff
 //@   at call UpdateLockedLock assert C02.reenter.bound: implies(lockManager.locked == u32(atsection(lockManager.locked) + 1), currentLock.locked == u8(atsection(currentLock.locked) + 1) && atsection(currentLock.locked) <= command.Rcount && atsection(currentLock.locked) < 0xff && command.TimeoutFlag&0x0010 == 0)
 //@   at call FreeLockCommand assert C19.relock.frees-replaced: implies(calls(UpdateLockedLock) == 1, arg1 == atsection(currentLock.command) && currentLock.command == command)
 //@   at call PriorityMutex.Unlock assert C15.value.frame: implies(calls(ProcessLockData) == 0 && calls(ProcessAckLockData) == 0 && calls(ProcessRecoverLockData) == 0 && calls(RemoveLockManager) == 0 && calls(wakeUpWaitLocks) == 0 && calls(DoAckLock) == 0 && calls(doExpried) == 0 && calls(doTimeOut) == 0 && calls(cancelWaitLock) == 0, lockManager.currentData == atsection(lockManager.currentData))
@@ -689,6 +690,20 @@ package server
 // a commit is accepted only for exactly the accepted proposal, once
 //@ spec func commitAccepted(v) = v.commitId == old(v.proposalId) && v.commitId > old(v.commitId) && v.proposalId == old(v.proposalId)
 //@ spec func voterUnchanged(v) = v.proposalId == old(v.proposalId) && v.commitId == old(v.commitId) && v.proposalHost == old(v.proposalHost)
+
+// C12: a restart never lowers the committed number below what was saved: after Load the committed number is the one the
+// store delivered and the accepted number starts from it (not the other way round)
+//@ ghost storedCommit : Int
+//@ func (*ArbiterStore).Load
+//@   ghost storedCommit[ref(manager)] = after(manager.voter.commitId)
+//@   modifies all
+//@ func (*Aof).LoadMaxAofId
+//@   trusted reading the newest log position touches files and the append-file reader, never the election state
+//@   preserves F_server_ArbiterVoter_, F_server_ArbiterManager_
+//@ func (*ArbiterManager).Load
+//@   requires self != nil && self.voter != nil && self.store != nil && self.slock != nil
+//@   ensures C12.load.commit-kept: implies(isnil(result), self.voter.commitId == ghost.storedCommit[ref(self)] && self.voter.proposalId == self.voter.commitId)
+//@   modifies all
 
 //@ func (*ArbiterManager).DoAnnouncement
 //@   trusted starts a goroutine only; the announcement itself is a separate handler
